@@ -33,7 +33,8 @@ FAMS = ["single:conv@8", "single:dw@8", "single:maxpool@8", "single:avgpool@8", 
         "single:conv_big_kernel@8", "single:pool_then_ew@8",
         "single:splitv@8", "single:slice_op@8", "single:unpack_pack@8", "single:sqdiff@8", "single:quant_chain", "single:softmax@8", "single:softmax@8", "single:argmax@8",
         "single:mean_big@8", "single:pad_pool@8", "single:pad_pool@8", "single:slice_masks@8", "single:dw_mult@8", "single:conv_1d@8", "ew_chain", "concat_split",
-        "single:exp@8", "single:rsqrt@8", "rewrite_patterns", "rewrite_patterns"]
+        "single:exp@8", "single:rsqrt@8", "rewrite_patterns", "rewrite_patterns",
+        "single:conv_groups@8", "single:conv_groups@8", "single:pool_global_stride@8"]
 if os.environ.get("VERIF_C01_FAMS"):        # development aid: restrict the generated part to some families
     FAMS = os.environ["VERIF_C01_FAMS"].split(",")
 
